@@ -1,7 +1,7 @@
 """C07 -- all generated output formats describe the same configuration.
 
 Trees with one option of each type in each presence state (visible / hidden / promptless / n / empty) x ALL rename files of
-<= 3 lines over an 11-line alphabet (plain and inverted aliases of the same bool, two aliases of one option in both orders,
+<= 3 lines over a 12-line alphabet (plain and inverted aliases of the same bool, two aliases of one option in both orders,
 duplicate old names where the last wins, aliases of int/string/hex with and without `!`, alias of an undefined option,
 lowercase old name) x all configurations of the value domain.
 
@@ -45,8 +45,9 @@ ALPHABET = [
     "CONFIG_OLD_H CONFIG_H",
     "CONFIG_OLD_U CONFIG_UNDEFINED",
     "CONFIG_old_lower CONFIG_B",
+    "CONFIG_OLD_NBH !CONFIG_BH",
 ]
-BOOL_LINES = [0, 1, 2, 3, 4, 10]
+BOOL_LINES = [0, 1, 2, 3, 4, 10, 11]
 
 
 def trees() -> List[Tuple[str, Program, Dict[str, List[Optional[str]]]]]:
@@ -308,6 +309,13 @@ def run_case(files, tree: str, rf: Tuple[int, ...], names: List[str], assign: Tu
         elif old in cfg_dep:
             viol({"kind": "alias_for_absent_option", "format": "config", "type": typ}, f"alias {old} written although {new} is not written")
         # header: C truthiness
+        if not present_expected:
+            # the replacement is not part of the written configuration: the alias must be absent everywhere
+            if old in hdr_dep:
+                viol({"kind": "alias_for_absent_option", "format": "header", "type": typ, "inverted": inv}, f"header defines alias {old} ({hdr_dep[old]!r}) although {new} is not written (sdkconfig / CMake have no such alias)")
+            if old in cm_dep:
+                viol({"kind": "alias_for_absent_option", "format": "cmake", "type": typ, "inverted": inv}, f"cmake defines alias {old} although {new} is not written")
+            continue
         if typ == "bool":
             hv = hdr_dep.get(old)
             if hv is None:
